@@ -65,7 +65,12 @@ func (g *G) weighted(label string, weights ...int) int {
 func (g *G) subclass() string {
 	switch g.weighted("sub", 55, 12, 10, 14, 9) {
 	case 0:
-		return "." + g.pick("class", Classes)
+		c := g.pick("class", Classes)
+		if g.chance("escaped", 4) {
+			// the same class name spelled with an escape (the space ends the escape and is not a combinator)
+			return "." + map[string]string{"a": "\\61 ", "b": "\\62 ", "c": "\\000063"}[c]
+		}
+		return "." + c
 	case 1:
 		return "#" + g.pick("id", IDs)
 	case 2:
@@ -703,7 +708,21 @@ func (g *G) ruleList(depth, max int) string {
 	return strings.Join(parts, "\n")
 }
 
+var passThroughRules = []string{
+	"@keyframes spin { from { top: 0 } 50% { top: 1px } to { top: 2px } }",
+	"@font-face { font-family: f; src: url(f.woff2) format(\"woff2\") }",
+	"@page { margin: 1cm }",
+	"@property --p { syntax: \"<length>\"; inherits: false; initial-value: 0px }",
+	"@counter-style cs { system: cyclic; symbols: \"*\" }",
+	"@unknown-rule foo { bar: baz }",
+	"@unknown-statement foo;",
+}
+
 func (g *G) rule(depth int) string {
+	if depth >= 2 && g.chance("passthrough", 4) {
+		// rules without a cascade effect in this model: they must simply survive and not disturb their neighbours
+		return g.pick("ptr", passThroughRules)
+	}
 	w := []int{62, 14, 0, 0, 0}
 	if depth <= 0 {
 		w[1] = 0
